@@ -31,7 +31,7 @@ VARIABLES cfg, pnext, ppc, ndone, q, cancelled, cause, wpc, wu, wi, calls, faile
 vars == <<cfg, pnext, ppc, ndone, q, cancelled, cause, wpc, wu, wi, calls, failed, ret>>
 
 QuickSizes == {<<0>>, <<0, 1>>, <<0, 1, 1>>, <<0, 2, 1>>}
-ThoroughSizes == QuickSizes \cup {<<0, 2>>, <<0, 1, 2>>, <<0, 1, 1, 1>>, <<0, 1, 2, 1>>, <<0, 1, 1, 1, 1>>}
+ThoroughSizes == QuickSizes \cup {<<0, 2>>, <<0, 1, 2>>, <<0, 1, 1, 1>>, <<0, 1, 2, 1>>}
 AllConfigs == Configs(MaxG, SizeVecs, MaxFail, Modes, Variants)
 Fixed == cfg.fixed
 Judged == Fixed \/ JudgeAll
